@@ -6,6 +6,7 @@ from hypothesis import strategies as st
 from .. import hist, wire
 from ..engine import ok, require
 from ..simkit import ADDRS, ServerRec, Sim, cfg, ep_desc, desc_semantic, make_sd, sd, sd_bytes, sent_entries, timings
+from ..ttlmodel import TTLModel
 from ..vloop import RES
 from .c07 import ref_detect
 
@@ -27,10 +28,10 @@ ASSUMPTIONS = [
     "a Subscribe within RES of the deadline of its predecessor is simultaneous: 'unsubscribed, subscribed again' and 'no notification' are both accepted",
     "API calls respect their preconditions (stop only when started etc.); connection loss enters through the protocol object",
 ]
-BUDGET = {"quick": {"examples": 3200, "shrink": 300}, "thorough": {"examples": 320000, "shrink": 2000}}
-ENUM_LEN = {"quick": 4, "thorough": 5}
+BUDGET = {"quick": {"examples": 16000, "shrink": 300}, "thorough": {"examples": 640000, "shrink": 2000}}
+ENUM_LEN = {"quick": 4, "thorough": 6}
 EXHAUSTIVE = {"quick": "all 11^4 = 14641 histories of length 4 over the 8-event + 3-timing alphabet",
-              "thorough": "all 11^5 = 161051 histories of length 5 over the 8-event + 3-timing alphabet"}
+              "thorough": "all 11^6 = 1771561 histories of length 6 over the 8-event + 3-timing alphabet"}
 INF = 0xFFFFFF
 INSTANCES = [(0x3000, 1, 1, frozenset({1, 2})), (0x3000, 2, 1, frozenset({1}))]
 EPSETS = [[["10.0.0.2", 4000, 17]], [["2001:db8::3", 4001, 17]], [["10.0.0.2", 4000, 6]], [],
@@ -147,20 +148,21 @@ def run_case(case):
 
         sessions = {}
         sess = {}
-        live = {}     # (subscriber, identity) -> deadline | None
-        plog = {}     # per pair: list of (t, kind) in call order
-        cursor = {}   # per pair: number of consumed calls
+        model = TTLModel("C06", {"subscribed": True, "rejected": False}, optional_new=True,
+                         clauses={"missing": "C06.stale-subscribed", "unexplained-expired": "C06.liveness",
+                                  "unexplained-new": "C06.unexplained-subscribed", "time": "C06.expiry-time"})
+        live = model.live
         latest = {}
         seen = [0]
         sent_seen = [len(prot.transport.sent)]
         events = []   # model events of the current group, in step order
-        calls = lambda p: [(round(t, 6), k) for t, k in plog.get(p, [])]  # noqa: E731
+        calls = model.calls
 
         def scan():
             # (1) alternation; a rejected call does not count and is never followed by 'unsubscribed'
             for t, name, kind, key, src, ttl in log[seen[0]:]:
                 p = (src, key)
-                plog.setdefault(p, []).append((t, kind))
+                model.record(t, "expired" if kind == "unsubscribed" else kind, p)
                 prev = latest.get(p)
                 if kind == "rejected":
                     feats["rejected"] = True
@@ -175,71 +177,15 @@ def run_case(case):
                     latest[p] = "unsubscribed"
             seen[0] = len(log)
 
-        def peek(p):
-            lst = plog.get(p, [])
-            c = cursor.get(p, 0)
-            return lst[c][1] if c < len(lst) else None
-
-        def consume(p):
-            cursor[p] = cursor.get(p, 0) + 1
-
-        def end(p, why, now):
-            """the model ends subscription p: the listener must have been told"""
-            require(peek(p) == "unsubscribed", "C06.stale-subscribed",
-                    lambda: f"subscription {p[1]} from {p[0]} ended ({why}) by idle t={now:.6f} but the listener was not told 'unsubscribed'; calls {calls(p)}")
-            consume(p)
-            del live[p]
-
-        def apply(ev, now):
-            kind = ev[0]
-            if kind == "sub":
-                _, p, nd, t_arr = ev
-                if p in live:
-                    d = live[p]
-                    if d is not None and abs(d - t_arr) < RES and peek(p) == "unsubscribed":
-                        consume(p)      # simultaneous with the old deadline: 'expired, then asked again' is accepted
-                        del live[p]
-                    elif d is not None and d - t_arr <= -RES:
-                        end(p, "TTL", now)
-                    else:
-                        live[p] = nd    # refresh: no notification
-                        return
-                nxt = peek(p)
-                if nxt == "subscribed":
-                    consume(p)
-                    live[p] = nd
-                elif nxt == "rejected":
-                    consume(p)
-            elif kind == "stopsub":
-                if ev[1] in live:
-                    end(ev[1], "StopSubscribe", now)
-            elif kind == "reboot":
-                for p in [p for p in live if p[0] == ev[1]]:
-                    end(p, "reboot of the subscriber", now)
-            elif kind == "svcstop":
-                for p in [p for p in live if p[1][1] == ev[1]]:
-                    end(p, "service stop", now)
-
         def check_idle():
             now = sim.now
             scan()
-            for ev in events:
-                apply(ev, now)
+            model.explain(events, now)
             del events[:]
-            for p, d in list(live.items()):
-                if d is not None and d - now < RES:
-                    end(p, "TTL", now)
-            for p, lst in plog.items():
-                c = cursor.get(p, 0)
-                if c < len(lst):
-                    t, kind = lst[c]
-                    clause = {"unsubscribed": "C06.liveness", "subscribed": "C06.unexplained-subscribed", "rejected": "C06.alternation"}[kind]
-                    require(False, clause,
-                            f"listener call '{kind}' for {p[1]} from {p[0]} at t={t:.6f} has no cause in the history (model live={p in live}) at idle t={now:.6f}; calls {calls(p)}")
-            for p in live:
+            for p in model.live:
                 require(latest.get(p) == "subscribed", "C06.liveness", lambda: f"{p} live in the model but latest is {latest.get(p)!r}")
             for p, kind in latest.items():
-                require(kind != "subscribed" or p in live, "C06.stale-subscribed", lambda: f"{p} latest 'subscribed' but not live in the model")
+                require(kind != "subscribed" or p in model.live, "C06.stale-subscribed", lambda: f"{p} latest 'subscribed' but not live in the model")
 
         def execute(i, s):
             op = s["op"]
@@ -258,7 +204,7 @@ def run_case(case):
                 sess[k] = (flag, sid)
                 reboot = ref_detect(sessions, k, flag, sid)
                 if reboot:
-                    events.append(("reboot", src))
+                    events.append(("end", lambda q, _s=src: q[0] == _s, "reboot of the subscriber"))
                 wire_entries = []
                 for e in s["entries"]:
                     if e["t"] == "find":
@@ -276,21 +222,21 @@ def run_case(case):
                     if e["t"] == "sub":
                         if reboot:
                             feats["rb_sub"] = True
-                        events.append(("sub", p, None if ttl == INF else now + ttl, now))
+                        events.append(("add", p, None if ttl == INF else now + ttl, now))
                     else:
-                        events.append(("stopsub", p))
+                        events.append(("end", lambda q, _p=p: q == _p, "StopSubscribe"))
                 prot.datagram_received(sd_bytes(wire_entries, sid, reboot=flag), src, mc)
             elif op == "reject-next":
                 reject[0] += 1
             elif op in ("svc-stop", "lost"):
                 if op == "svc-stop" and not started[0]:
                     return
-                if live:
+                if model.live:
                     feats["stop_live"] = True
                 if started[0]:
                     for n, a in enumerate(announced):
                         if a:
-                            events.append(("svcstop", INSTANCES[n][1]))
+                            events.append(("end", lambda q, _i=INSTANCES[n][1]: q[1][1] == _i, "service stop"))
                 started[0] = False
                 if op == "lost":
                     prot.connection_lost(None)
@@ -306,9 +252,9 @@ def run_case(case):
                     return
                 announced[1] = False
                 if started[0]:
-                    if any(p[1][1] == INSTANCES[1][1] for p in live):
+                    if any(p[1][1] == INSTANCES[1][1] for p in model.live):
                         feats["stop_live"] = True
-                    events.append(("svcstop", INSTANCES[1][1]))
+                    events.append(("end", lambda q, _i=INSTANCES[1][1]: q[1][1] == _i, "service stop"))
                 prot.announcer.stop_announce_service(insts[1])
             elif op == "announce":
                 if announced[1]:
@@ -327,7 +273,7 @@ def run_case(case):
                 return
             for a in acks:
                 ident = (a["service"], a["instance"], a["major"], a["eventgroup"], a["counter"])
-                require(any(p[0] == a["dest"] and p[1][:5] == ident for p in live), "C06.acknowledged-not-held",
+                require(any(p[0] == a["dest"] and p[1][:5] == ident for p in model.live), "C06.acknowledged-not-held",
                         lambda: f"positive SubscribeAck {ident} ttl={a['ttl']} sent to {a['dest']} at t={a['t']:.6f}, but no such subscription is recorded at the next idle point (t={sim.now:.6f})")
 
         sim.idle_hooks.append(check_idle)
@@ -335,7 +281,11 @@ def run_case(case):
             w = s.get("when", ["d", 0.01])
             if w[0] == "t" and w[2] in ("-q", "+q"):
                 feats["near"] = True
-        hist.drive(sim, steps, execute, after_group, barrier=lambda st_: st_["op"] == "lost")
+        # a lifecycle call may not follow a datagram inside one iteration (the datagram's handling is deferred past it:
+        # the order is ambiguous, DESIGN 2.2); it may precede one
+        lifecycle = ("svc-stop", "svc-start", "unannounce", "announce")
+        hist.drive(sim, steps, execute, after_group, barrier=lambda st_: st_["op"] == "lost",
+                   splitter=lambda grp, st_: st_["op"] in lifecycle and any(g["op"] == "msg" for g in grp))
         sim.advance(3.5)
         sim.advance(1.0)
         check_idle()
